@@ -812,6 +812,26 @@ def content_bag(ts):
     return bag
 
 
+def local_substituted(et, es):
+    """the edit replaced local names by other local names at some places and touched nothing else, and it is not a
+    consistent renaming: a different variable is used there - nothing was rearranged, so this is not the harmless kind"""
+    if len(et) != len(es):
+        return False
+    fwd = {}
+    diff = 0
+    for a, b in zip(et, es):
+        if a != b:
+            if not (re.match(r'^[a-z_][a-z0-9_]*$', a) and re.match(r'^[a-z_][a-z0-9_]*$', b)) or a in KEYWORDS or b in KEYWORDS:
+                return False
+            diff += 1
+        fwd.setdefault(a, set()).add(b)
+    if not diff:
+        return False
+    inconsistent = any(len(v) > 1 for v in fwd.values())
+    images = [next(iter(v)) for v in fwd.values() if len(v) == 1]
+    return inconsistent or len(images) != len(set(images))
+
+
 SKELETON = {';', '{', '}', 'if', 'else', 'while', 'for', 'loop', 'match', 'return', 'let', '=>', 'break', 'continue', '?'}
 
 
@@ -1102,12 +1122,16 @@ def generate(unit, canary=False, expand=True):
                 gen = gen2
             restructured = False
             rearranged = False
+            deleted_only = False
             if status != 'merged' or item.kind != 'fn':
                 perturbed = False
                 dropped = False
             if status == 'merged' and item.kind == 'fn':
                 restructured = [x for x in et if x in SKELETON] != [x for x in es if x in SKELETON]
-                rearranged = content_bag(et) == content_bag(es)
+                rearranged = content_bag(et) == content_bag(es) and not local_substituted(et, es)
+                # executable text was only taken away (nothing added, nothing moved): every annotation still stands where it
+                # stood relative to the statements that are left
+                deleted_only = all(op[0] in ('equal', 'delete') for op in difflib.SequenceMatcher(a=et, b=es, autojunk=False).get_opcodes())
                 for k3, t3 in enumerate(gen):
                     if not t3.ghost and re.match(r'^[A-Z][A-Z0-9_]{2,}$', t3.text) and (k3 == 0 or gen[k3 - 1].text != '::'):
                         unit.caps_idents.add((t3.text, rel))
@@ -1116,7 +1140,7 @@ def generate(unit, canary=False, expand=True):
             start_line, end_line = len(out_chunks) - 1, gen[0].trivia.count('\n')
             for k2, v in hits.items():
                 unit.hits[k2] = unit.hits.get(k2, 0) + v
-            unit.items.append({'file': rel, 'path': ' :: '.join(path), 'kind': item.kind, 'status': status, 'restructured': restructured, 'perturbed': perturbed, 'dropped': dropped, 'rearranged': rearranged,
+            unit.items.append({'file': rel, 'path': ' :: '.join(path), 'kind': item.kind, 'status': status, 'restructured': restructured, 'perturbed': perturbed, 'dropped': dropped, 'rearranged': rearranged, 'deleted_only': deleted_only,
                                'hits': hits, 'lines': (start_line, end_line), 'src_line': stoks_all[sitem.hstart].line,
                                'has_body': item.kind == 'fn' and item.body_open is not None})
             pos = item.end
